@@ -62,8 +62,13 @@ Theorem C12_reject_unaccepted : forall apropos fuel a its st ls tot order pre l 
   load_order apropos fuel (map (fun l => (l_path l, l)) ls) = Some order ->
   pick ls dummy_line order = pre ++ l :: post ->
   apply_all a pre st = (s, true) -> apply_line a l s = None ->
-  dispatch_printed apropos fuel a its st = Some (r, st') -> r < 0 /\ st' = s.
+  dispatch_printed apropos fuel a its st = Some (r, st') -> r < 0 /\ st' = partial_line a l s.
 Proof. exact reject_unaccepted. Qed.
+
+(* ... of a line that is not accepted a scalar line changes nothing; an array line is sent element
+   by element, the elements in front of the rejected one have been applied (apply_elems_partial) *)
+Theorem C12_partial_line_scalar : forall a l s, l_array l = false -> partial_line a l s = s.
+Proof. exact partial_line_scalar. Qed.
 
 Theorem C12_unaccepted_causes : forall a l i v s,
   find_port a (l_path l) = Some i ->
